@@ -24,13 +24,21 @@ Proof.
 Qed.
 
 (* ------------------------------------------------------------------ what a worker writes is well-formed *)
+Lemma imap_lengths {A} (g : nat -> A -> list Z) (size : A -> nat) :
+  (forall m x, length (g m x) = size x) -> forall l i, map (@length Z) (imap g i l) = map size l.
+Proof. intros H. induction l as [|x l IH]; intros i; cbn [imap map]; [reflexivity|]. rewrite H, IH. reflexivity. Qed.
+
+Lemma enc_member_length u m sh f0 f1 f2 f3 : length (enc_member u m sh f0 f1 f2 f3) = msize sh.
+Proof.
+  unfold enc_member. destruct (Nat.eqb_spec (msize sh) 1) as [->|Hne]; destruct u; cbn [andb negb length];
+    try reflexivity; rewrite map_length, seq_length; auto.
+Qed.
+
 Lemma encode_ok k f0 f1 f2 f3 : obs_ok (mshapes k) (encode k f0 f1 f2 f3).
-Proof. destruct k; reflexivity. Qed.
+Proof. unfold obs_ok, encode. apply imap_lengths. intros m sh. apply enc_member_length. Qed.
 
 Lemma placeholder_ok k : obs_ok (mshapes k) (placeholder_obs k).
-Proof.
-  unfold obs_ok, placeholder_obs. rewrite map_map. apply map_ext. intros sh. apply repeat_length.
-Qed.
+Proof. unfold obs_ok, placeholder_obs. apply imap_lengths. intros m sh. apply repeat_length. Qed.
 
 Lemma fill_obs_wf k agents (o : dict obs_t) :
   (forall a ob, lookup a o = Some ob -> obs_ok (mshapes k) ob) ->
